@@ -41,6 +41,9 @@ func init() {
 			{ID: "C04.R12", Text: "a closed session's positions are forgotten: Stream.Close unconditionally replaces the position map and the dirty marks by fresh maps after the streams were closed — nothing of a vBucket handed to another member can be written by a later save", Run: closeResets},
 			{ID: "C04.R13", Text: "the position gauge is the tracked position: the descriptor is paired with the ranged offset's own SeqNo, uncapped (same rule as C16.R1)", Run: c16r1},
 			{ID: "C04.R14", Text: "the range the acknowledgement guard tests is exactly what the member owns: the assigned list is the contiguous chunk MemberNumber-1 of TotalMembers chunks (a sparse assignment would make first..last a hull over other members' vBuckets) (same rule as C09.R2)", Run: c09r2},
+			{ID: "C04.R15", Text: "a save reaches the store once, when it was asked for: no layer repeats, delays or reorders it (same rules as C20.R19 and C20.R20)", Run: func(c *Ctx, id string) { decoratorsTransparent()(c, id); noNewLayers(c, id) }},
+			{ID: "C04.R16", Text: "the next save writes the tracked position of every vBucket settled since the last successful one: dirty marks are cleared only after a successful write and never replaced wholesale (same rule as C05.R4)", Run: c05r4},
+			{ID: "C04.R17", Text: "no save while the stream is closed for a rebalance: the position map is the empty one Close installed and the old range is still in force — nothing the rebalance or its re-open callback runs synchronously saves", Run: noSaveWhileClosed},
 			{ID: "C04.R4", Text: "the position map has no other writer (same rule as C01.R1)", Run: c01r1},
 		},
 	})
